@@ -91,7 +91,7 @@ enum Ev {
     Heal,
 }
 
-const MANGLE_KINDS: [&str; 13] = [
+const MANGLE_KINDS: [&str; 15] = [
     "fault.lmsmangle.bitflip_anywhere",
     "fault.lmsmangle.bitflip_q",
     "fault.lmsmangle.bitflip_ots_type",
@@ -105,9 +105,11 @@ const MANGLE_KINDS: [&str; 13] = [
     "fault.lmsmangle.splice_from_other_signature",
     "fault.lmsmangle.q_out_of_range",
     "fault.lmsmangle.typecode_of_another_parameter_set",
+    "fault.lmsmangle.forger_advances_a_chain",
+    "fault.lmsmangle.forger_relabels_leaf_with_that_leafs_path",
 ];
 
-fn mangle_sig(t: &mut Tape, rng: &mut SimRng, prm: &rl::Params, sig: &[u8], msg: &[u8], others: &[(Vec<u8>, Vec<u8>)]) -> (Vec<u8>, Vec<u8>, &'static str) {
+fn mangle_sig(t: &mut Tape, rng: &mut SimRng, prm: &rl::Params, id: &[u8], sig: &[u8], msg: &[u8], others: &[(Vec<u8>, Vec<u8>)]) -> (Vec<u8>, Vec<u8>, &'static str) {
     let (p, _) = prm.p_ls();
     let n = prm.n;
     let o_c = 8;
@@ -116,7 +118,7 @@ fn mangle_sig(t: &mut Tape, rng: &mut SimRng, prm: &rl::Params, sig: &[u8], msg:
     let o_path = o_kt + 4;
     let mut s = sig.to_vec();
     let mut m = msg.to_vec();
-    let mut kind = t.weighted(&[4, 2, 1, 2, 4, 1, 3, 2, 2, 2, 3, 1, 2]);
+    let mut kind = t.weighted(&[4, 2, 1, 2, 4, 1, 3, 2, 2, 2, 3, 1, 2, 3, 2]);
     let flip = |t: &mut Tape, s: &mut Vec<u8>, lo: usize, hi: usize| {
         if hi > lo && hi <= s.len() {
             let i = lo + t.usize(hi - lo);
@@ -184,6 +186,23 @@ fn mangle_sig(t: &mut Tape, rng: &mut SimRng, prm: &rl::Params, sig: &[u8], msg:
                         3 => s[o_c..o_y].copy_from_slice(&o.0[o_c..o_y]),        // its randomizer
                         _ => m = o.1.clone(),                                    // this signature, that message
                     }
+                }
+            }
+            13 => {
+                // constructed, not random: chain i (message digit or checksum digit) advanced by 1..k hash steps
+                let i = if t.chance(1, 3) { p - 1 - t.usize(2) } else { t.usize(p) };
+                let steps = [1usize, 1, 2, 255][t.usize(4)];
+                if let Some(f) = rl::advance_chain(prm, id, msg, sig, i, steps) {
+                    s = f;
+                }
+            }
+            14 => {
+                // q and the authentication path both taken from another genuine signature of the same key
+                let c: Vec<&(Vec<u8>, Vec<u8>)> = others.iter().filter(|o| o.0 != sig && o.0.len() == sig.len()).collect();
+                if !c.is_empty() {
+                    let o = c[t.usize(c.len())];
+                    s[..4].copy_from_slice(&o.0[..4]);
+                    s[o_path..].copy_from_slice(&o.0[o_path..]);
                 }
             }
             12 => {
@@ -559,7 +578,7 @@ pub fn run<L: LmsSet, L2: LmsSet>(t: &mut Tape, _cfg: &Cfg, out: &mut RunOut) {
                                 let (s2, m2, how) = match ck {
                                     CopyKind::Clean | CopyKind::Stale => (sig.clone(), msg.clone(), "intact"),
                                     CopyKind::Corrupt => {
-                                        let (a, b, k) = mangle_sig(t, &mut harness_rng, &prm, &sig, &msg, &released_sigs);
+                                        let (a, b, k) = mangle_sig(t, &mut harness_rng, &prm, &id, &sig, &msg, &released_sigs);
                                         out.fault(k);
                                         (a, b, k)
                                     }
